@@ -3,7 +3,8 @@
  F  cargo features change no cipher code (sound for the feature clause): for every function of every /repo crate that
     exists both with and without the optional features (zeroize, hazmat, bcrypt), the normalised MIR (resolved callees,
     evaluated constants, control flow; spans / local names / table indices dropped) is *identical* in the two builds.
-    Exempt: `Drop::drop` impls (the wipe is the feature) and nothing else.  Identical MIR => identical function.
+    Exempt: `Drop::drop` impls (the wipe is the feature).  Identical MIR => identical function.  A function whose MIR
+    differs is decided semantically (same_function_by_terms): same result terms on the same symbolic arguments.
  S  `serpent_no_unroll` == unrolled: encrypt_block and decrypt_block of Serpent, interpreted with Herbrand terms on a
     symbolic instance and block under the two configurations in one term table, yield identical output terms
     (global value numbering: the loop form unrolls to the macro form under constant propagation).
@@ -152,6 +153,65 @@ def first_difference(a, b):
     return '?'
 
 
+def same_function_by_terms(Fb, Ff, path):
+    """None if every monomorphic instance of `path` computes the same terms in the two builds, else a reason"""
+    import equiv, engine
+    import terms as T
+    from interp import State, Ptr, _leaf_terms
+    from values import Arr, topint
+    mb, mf = Fb.mono, Ff.mono
+    ib = {f['full']: f for f in mb.fns if f.get('path') == path}
+    jf = {f['full']: f for f in mf.fns if f.get('path') == path}
+    if not ib or set(ib) != set(jf):
+        return 'no comparable monomorphic instances (%d / %d)' % (len(ib), len(jf))
+    try:
+        with equiv.TermMode():
+            for full in sorted(ib):
+                f0 = ib[full]
+                slice_params = [i for i in range(1, f0['mir']['argc'] + 1)
+                                if mb.ty(f0['mir']['locals'][i])['k'] in ('ref', 'ptr') and mb.ty(mb.ty(f0['mir']['locals'][i])['t'])['k'] == 'slice'
+                                and mb.ty(mb.ty(mb.ty(f0['mir']['locals'][i])['t'])['e']).get('w') == 8]
+                # byte-slice parameters (keys): every length 0..=40 and a few longer ones, symbolic contents
+                lens = [None] if not slice_params else list(range(0, 41)) + [48, 56, 57, 64, 72, 128, 129]
+                if len(slice_params) > 1:
+                    lens = [0, 1, 5, 16, 17, 32]
+                for n in lens:
+                    outs = []
+                    for (m, f) in ((mb, ib[full]), (mf, jf[full])):
+                        engine._INTERPS.clear()
+                        I = engine.mk_interp(m, 30_000_000)
+                        st = State()
+                        over = {}
+                        for i in slice_params:
+                            I.fresh += 1
+                            obj = ('P', 'sl%d' % i, I.fresh)
+                            st.mem[obj] = Arr(engine.u8_slice_type(I), [topint(8, False, T.sym('sl%d[%d]' % (i, j), 8)) for j in range(n)])
+                            over[i] = Ptr(obj, (), I.usize(0), I.usize(n), None, None, mb.ty(f0['mir']['locals'][i]).get('mut', False))
+                        args = engine.default_args(I, st, f, over)
+                        status, r = engine.run(I, f['id'], args, st)
+                        if status not in ('ok', 'diverge'):
+                            return '%s: %s %s' % (pretty(full), status, str(r)[:150])
+                        leaves = [T.const(8, 1 if status == 'ok' else 0)]
+                        if status == 'ok':
+                            _leaf_terms(r, leaves)
+                            for a in args:
+                                if isinstance(a, Ptr) and a.obj in st.mem:
+                                    _leaf_terms(st.mem[a.obj], leaves)
+                        outs.append(leaves)
+                    at = '' if n is None else ' (slice length %d)' % n
+                    if len(outs[0]) != len(outs[1]):
+                        return '%s%s: results have different shapes' % (pretty(full), at)
+                    for i, (x, y) in enumerate(zip(outs[0], outs[1])):
+                        if x is None or y is None or x is not y:
+                            return '%s%s: result leaf %d differs: %s' % (pretty(full), at, i, T.first_diff(x, y) if (x is not None and y is not None) else 'no term (data-dependent control flow)')
+    except Exception as e:
+        return 'analysis error %r' % (e,)
+    finally:
+        import engine as _e
+        _e._INTERPS.clear()
+    return None
+
+
 def rule_F(chk, base_name, feat_name, Fb, Ff):
     n = 0
     for cname in REPO_CRATES:
@@ -167,9 +227,17 @@ def rule_F(chk, base_name, feat_name, Fb, Ff):
             if a == b:
                 chk.ok('F-feature-independent-mir', key, dict(fn=pretty(path), crate=cname) if n % 400 == 1 else None)
             else:
-                chk.violation('F-feature-independent-mir', key,
-                              '%s (%s) compiles to different code with the optional cargo features %s than without: %s' % (
-                                  pretty(path), fn_loc(ff), Ff.meta['cfg']['features'], first_difference(a, b)))
+                # the code differs (typically a `#[cfg(feature = "zeroize")]` wipe of a temporary): decide semantically --
+                # every monomorphic instance of the function, interpreted on the same symbolic arguments in both builds,
+                # must return identical terms and leave identical terms behind every pointer argument
+                why = same_function_by_terms(Fb, Ff, path)
+                if why is None:
+                    chk.ok('F-feature-independent-mir', key, dict(fn=pretty(path), crate=cname, decided_by='terms: the two bodies differ but compute the same results'))
+                else:
+                    chk.violation('F-feature-independent-mir', key,
+                                  '%s (%s) compiles to different code with the optional cargo features %s than without (%s) and the two '
+                                  'versions are not shown to compute the same results: %s' % (
+                                      pretty(path), fn_loc(ff), Ff.meta['cfg']['features'], first_difference(a, b), why))
         # functions that vanish when a feature is enabled
         for path in sorted(set(cb.fns) - set(cf.fns)):
             chk.violation('F-feature-independent-mir', '%s~%s|%s|F|vanishes' % (base_name, feat_name, pretty(path)),
